@@ -111,6 +111,22 @@ CLAIMED = {
             'Trusts harness/warcenv.py (fake FS, temp files, uninterpreted SHA-1, fixed clock/uuid, stub pool, wait_for passthrough) and '
             'FakeConnection; body <=2 bytes (thorough 3), <=2 cuts (3); TLS/proxies outside.',
             'DESIGN.md 3/C04', 'body bytes and read cuts symbolic; header formatting enumerated'),
+    'C05': ('other',
+            'Bounded symbolic verification of WARCRecord (symbolic block bytes and payload offset; SHA-1 uninterpreted so that "which bytes '
+            'were hashed" is checked exactly) and of whole files written by the real WARCRecorder + HTTP/FTP recorder sessions over the fake '
+            'file system under enumerated configurations (compression, digests, appending to an earlier archive, size roll-over, extra '
+            'warcinfo fields, 1-2 sessions, revisit) with symbolic body bytes; files re-read by an independent strict parser: complete '
+            'records, one gzip member each, exact Content-Length, CRLF CRLF, unique ids, every record naming the warcinfo record of its '
+            'file, block/payload digests over exactly the right byte ranges, for every header formatting of the family.',
+            'Trusts harness/warcenv.py and fakefs (gzip = framing); SHA-1 arithmetic, the log record and move_to outside the claim; body <=2 bytes.',
+            'DESIGN.md 3/C05', 'block bytes and payload offset symbolic; recorder configuration enumerated'),
+    'C07': ('other',
+            'Bounded symbolic verification of CDX output of the real WARCRecorder over the fake file system: for enumerated configurations '
+            '(compressed, rolled-over, appended to an existing archive + CDX, 1-2 sessions) and symbolic status / Content-Type / header-count / '
+            'body, every CDX line must address exactly one response record or gzip member (offset, length, file) with equal record id, URL and '
+            'payload checksum, carry the status code and MIME type of the archived response, one line per response record; read_cdx reads it back.',
+            'Trusts harness/warcenv.py and fakefs; status codes and Content-Type values from pools; body <=1 byte.',
+            'DESIGN.md 3/C07', 'configuration and header shape by symbolic index, body symbolic'),
 }
 
 NOT_APPLICABLE = {
@@ -120,7 +136,7 @@ NOT_APPLICABLE = {
 }
 
 PENDING = {k: 'claimed in DESIGN.md 3 but its check is not built yet at this commit' for k in
-           'C05 C07 C09 C10 C15 C20'.split()}
+           'C09 C10 C15 C20'.split()}
 
 
 def main():
